@@ -81,7 +81,7 @@ def run(prog: Program, ctx: Ctx) -> None:  # noqa: PLR0912,PLR0915
                    "__init__ parameters resolve to Parent(name); unknown names raise NameResolutionError")
 
     def mk(cls_, name, kind, parent, members=None, **extra):
-        o = Obj(cls_, {"name": name, "parent": parent, "members": members if members is not None else {}, "is_module": kind == "module", "is_class": kind == "class",
+        o = Obj(cls_, {"name": name, "parent": parent, "members": members if members is not None else {}, "inherited_members": {}, "is_module": kind == "module", "is_class": kind == "class",
                        "is_function": kind == "function", "is_alias": False, "path": (f"{parent.attrs['path']}.{name}" if parent is not None else name), **extra}, label=name)
         if parent is not None:
             parent.attrs["members"][name] = o
@@ -97,6 +97,8 @@ def run(prog: Program, ctx: Ctx) -> None:  # noqa: PLR0912,PLR0915
     leaf("imp", mod, alias_target="ext.thing")
     outer = mk(ocls, "Outer", "class", mod)
     leaf("OA", outer)
+    # a member Outer merely inherits from a base class: not visible as a bare name in its body
+    outer.attrs["inherited_members"]["INH"] = Obj(None, {"name": "INH", "is_alias": True, "path": "mod.Outer.INH", "target_path": "mod.Base.INH"}, label="INH")
     inner = mk(ocls, "Inner", "class", outer)
     leaf("IA", inner)
     params = Obj(prog.cls(f"{M}.Parameters"), {"_params": [Obj(prog.cls(f"{M}.Parameter"), {"name": "p"})]})
@@ -107,7 +109,7 @@ def run(prog: Program, ctx: Ctx) -> None:  # noqa: PLR0912,PLR0915
     nested_in_func = mk(ocls, "Local", "class", func)  # class defined in a function body sees the function's (module's) names
     scopes = {"module": mod, "class Outer": outer, "class Outer.Inner": inner, "method Outer.m": meth, "method Outer.__init__": init,
               "method Outer.Inner.im": imeth, "function f": func}
-    names = ["G", "imp", "OA", "IA", "Outer", "Inner", "p", "zz", "mod"]
+    names = ["G", "imp", "OA", "IA", "Outer", "Inner", "p", "zz", "mod", "INH"]
 
     def python_rule(scope_label: str, name: str) -> str:
         """Reference: what the name is bound to at that point under Python's scoping (+ the two documented Griffe conventions)."""
@@ -167,8 +169,10 @@ def run(prog: Program, ctx: Ctx) -> None:  # noqa: PLR0912,PLR0915
         for i, pname in enumerate(parts):
             last = i == len(parts) - 1
             initm = True if not last else is_init
-            o = Obj(None, {"name": pname, "parent": parent_obj, "path": ".".join(parts[: i + 1]), "is_package": initm and parent_obj is None,
-                           "is_subpackage": initm and parent_obj is not None}, label=pname)
+            from pathlib import PurePosixPath
+
+            fp = PurePosixPath("/s/" + "/".join(parts[: i + 1]) + ("/__init__.py" if initm else ".py"))
+            o = Obj(prog.cls(f"{M}.Module"), {"name": pname, "parent": parent_obj, "path": ".".join(parts[: i + 1]), "_filepath": fp}, label=pname)
             chain.append(o)
             parent_obj = o
         current = chain[-1]
@@ -212,3 +216,7 @@ def run(prog: Program, ctx: Ctx) -> None:  # noqa: PLR0912,PLR0915
     for attr in ("path", "canonical_path"):
         f = prog.lookup_method(ea, attr)[0]
         ctx.ob("R5", key(f, "last-segment"), f"return self.last.{attr}" in ast.unparse(f.node), f"ExprAttribute.{attr} is its last segment's {attr} (resolved through the chain)", where(f))
+
+    from sa.importrules import import_rules
+
+    import_rules(prog, ctx, "R6")
